@@ -7,7 +7,7 @@ A_OS = "A-OS: waitpid reports each exit once; SIGCHLD delivered after an exit; p
 A_SQL = "A-SQL: sqlite executes the SQL text of version_index_queries.py as written; commit is atomic"
 A_GIT = "A-GIT: git merge-base --is-ancestor / rev-list --count / rev-parse mean what their documentation says"
 A_SIG = "A-SIG: one abort signal per invocation, delivered at a statement boundary or right after a call returns"
-A_PLAN = "A-PLAN: the executor contracts assume a well-formed plan (symmetric duplicate-free edges, initial_ops = ops without dependencies); established by the planner checks (C02), bounded where stated"
+A_PLAN = "A-PLAN: the executor contracts require a well-formed plan (symmetric duplicate-free edges, initial_ops = ops without dependencies): proved as postconditions of create_plan_for (contracts/planner.py); the hand-over in cli/run.py::main is a call-site view"
 
 PROPS = {
     "C01": {"rt": ["rt_planner", "rt_executor"], "level": "proof", "assumes": [A_PY, A_OS, A_PLAN]},
